@@ -645,9 +645,8 @@ func (c *EvalCtx) evalField(base *V, name string, e *Expr) *V {
 				// embedded non-opaque struct: yield a location value so further selection works
 				return &V{K: KLoc, T: types.NewPointer(l.T), L: l}
 			}
-			if r.eng.opaque(l.T) {
-				// identity of the embedded opaque object (locks, sync.Map, ...): value is the box content,
-				// but most uses want the identity: expose as location
+			if r.eng.opaque(l.T) && identityTypes[types.TypeString(l.T, nil)] {
+				// embedded object with identity (locks, sync.Map, ...): expose the location
 				return &V{K: KLoc, T: types.NewPointer(l.T), L: l}
 			}
 			return st.load(l)
@@ -998,6 +997,16 @@ func (c *EvalCtx) evalCall(e *Expr) *V {
 			a, o, k := c.intOf(e.Args[0]), c.intOf(e.Args[1]), c.intOf(e.Args[2])
 			return st.load(st.elemLoc(a, st.ixTerm(o, k), types.Typ[types.String]))
 		}
+	case "content":
+		// content(s): abstract content of the byte array behind slice s (as produced by the bytes.Buffer / json models)
+		argc(1)
+		{
+			a := c.eval(e.Args[0])
+			if a.K != KSlice {
+				c.fail("content() expects a []byte")
+			}
+			return vInt(sSel(st.comp("bytes#content", 1, "Int"), a.Arr), types.Typ[types.String])
+		}
 	case "errOf":
 		// errOf(tag, val): the error value with that dynamic type tag and payload
 		argc(2)
@@ -1289,4 +1298,11 @@ func (e *Engine) finishIfaceFacts() {
 			}
 		}
 	}
+}
+
+// identityTypes: library struct types whose meaning is their identity (ghost state is keyed by their address);
+// every other opaque struct type (time.Time, url.URL, ...) is a plain value.
+var identityTypes = map[string]bool{
+	"sync.Mutex": true, "sync.RWMutex": true, "sync.Map": true, "sync.WaitGroup": true, "sync.Once": true,
+	"bytes.Buffer": true, "container/list.List": true,
 }
